@@ -132,3 +132,40 @@ Print Assumptions C04_schema_order_script_is_legal.
 Theorem C04_legal_sequence_at_any_path : stmt_run_cur_legal.
 Proof. exact run_cur_legal. Qed.
 Print Assumptions C04_legal_sequence_at_any_path.
+
+
+From Sbepp Require Import CursorRange CursorRangeProofs.
+
+(* cursor_range / cursor_subrange(pos[, count]) (CursorRange.run_crange_at is
+   what the correspondence driver runs): on the image of any well-formed value
+   tree the entries visited are exactly the random-access entries
+   pos .. pos+count-1 and the cursor ends at entry pos+count (or at the end of
+   the group); failed preconditions are reported; ranges compose; the range
+   used inside visit_children and a user-level cursor_range agree *)
+Theorem C04_random_access_entry_addresses : stmt_entry_pos_enc.
+Proof. exact entry_pos_enc. Qed.
+Print Assumptions C04_random_access_entry_addresses.
+
+Theorem C04_cursor_range_on_image : stmt_crange_enc_default.
+Proof. exact crange_enc_default. Qed.
+Print Assumptions C04_cursor_range_on_image.
+
+Theorem C04_cursor_range_at_any_path : stmt_run_crange_at_enc.
+Proof. exact run_crange_at_enc. Qed.
+Print Assumptions C04_cursor_range_at_any_path.
+
+Theorem C04_cursor_subrange_pos_precondition_reported : stmt_crange_pos_asserts.
+Proof. exact crange_pos_asserts. Qed.
+Print Assumptions C04_cursor_subrange_pos_precondition_reported.
+
+Theorem C04_cursor_subrange_count_precondition_reported : stmt_crange_count_asserts.
+Proof. exact crange_count_asserts. Qed.
+Print Assumptions C04_cursor_subrange_count_precondition_reported.
+
+Theorem C04_cursor_ranges_compose : stmt_crange_compose_enc.
+Proof. exact crange_compose_enc. Qed.
+Print Assumptions C04_cursor_ranges_compose.
+
+Theorem C04_cursor_range_is_the_visit_loop : stmt_crange_all_in_trav_groups.
+Proof. exact crange_all_in_trav_groups. Qed.
+Print Assumptions C04_cursor_range_is_the_visit_loop.
